@@ -72,8 +72,19 @@ std::string propCounter(const FmmCase& c){
         a->applyToAllKernels([&](const auto& k){ parts.push_back(k.getReduceData()); });
         nbKernels = long(parts.size());
         for(const auto& p : parts) if(p.P2M + p.M2M + p.M2L + p.L2L + p.L2P + p.P2P + p.P2PInner > 0) nbKernelsUsed += 1;
-        for(size_t i = parts.size() ; i > 1 ; --i){ const size_t j = size_t(gf::splitmix(c.salt + i) % i); std::swap(parts[i - 1], parts[j]); }
-        for(const auto& p : parts) merged = Counting::ReduceType::Reduce(merged, p);
+        // "merge order of per-worker counters arbitrary": a generated reduction tree - any two partial results are merged, in
+        // either operand order, until one remains (the documented left fold from a zero accumulator is one such tree)
+        parts.push_back(typename Counting::ReduceType());
+        uint64_t r = c.salt * 0x9E3779B97F4A7C15ull + 12345;
+        while(parts.size() > 1){
+            r = gf::splitmix(r);
+            const size_t i = size_t(r % parts.size());
+            size_t j = size_t((r >> 20) % (parts.size() - 1)); if(j >= i) j += 1;
+            const auto m = ((r >> 40) & 1) ? Counting::ReduceType::Reduce(parts[i], parts[j]) : Counting::ReduceType::Reduce(parts[j], parts[i]);
+            parts[std::min(i, j)] = m;
+            parts.erase(parts.begin() + long(std::max(i, j)));
+        }
+        merged = parts[0];
     }
     // results unchanged by the wrapper
     std::string err;
